@@ -90,6 +90,17 @@ def gen_cases(chk):
             for flow in ("p%dt" % (1 - ty), "p7t", "p%d" % (1 - ty), "t"):
                 absb = rng.choice((0.1, 1e-3))
                 cases.append("meta %x %s 0 %s %s szMode=SZ_BEST_SPEED g:%d:%x:%x:%s:%s %s" % (ty, dims, dbits(absb), dbits(1e-3), rng.choice((0, 1, 2)), rng.getrandbits(20), n, dbits(1.0), dbits(0.0), flow))
+    # the combined point-wise relative modes (ABS_AND_PW_REL 11, ABS_OR_PW_REL 12, REL_AND_PW_REL 13, REL_OR_PW_REL 14) on float/double data: the stream reports
+    # the mode and an absolute bound; under the AND modes every element must be within it
+    for t in ((2000,), (40, 50), (8, 9, 10)):
+        n = 1
+        for v in t:
+            n *= v
+        dims = ",".join("%x" % v for v in [0] * (5 - len(t)) + list(t))
+        for ty in (0, 1):
+            for mode in (11, 13, 12, 14):
+                for cfgp in ("szMode=SZ_BEST_SPEED", "szMode=SZ_BEST_SPEED;accelerate_pw_rel_compression=0"):
+                    cases.append("meta %x %s %x %s %s %s g:0:%x:%x:%s:%s w%s" % (ty, dims, mode, dbits(1e-2), dbits(1e-3), cfgp, rng.getrandbits(20), n, dbits(10.0), dbits(20.0), dbits(1e-2)))
     # the headerless bypass of tiny float/double arrays (listed finding)
     cases.append("meta 0 0,0,0,0,f 0 %s %s szMode=SZ_BEST_SPEED g:0:1:f:%s:0" % (dbits(0.01), dbits(0.01), dbits(1.0)))
     return cases
@@ -113,6 +124,18 @@ def oracle(case, out):
     if out.startswith("DIED") or out.startswith("ERR") or "st=null" in out or "dec=null" in out:
         return [(classes.classify("rt %s %s %s %s %s %s 0 %s %s" % (a[1], a[2], a[2], a[3], a[4], a[5], a[6], a[7]), out), "implementation died: " + out[:160])]
     d = kv(out)
+    if mode >= 11:
+        # combined point-wise relative modes: under AND every element is within the absolute bound (for 13: ratio x range) the call states and the stream reports
+        me = dbl(d["maxerr"])
+        lim = absb if mode in (11, 12) else rel * dbl(d["range"])
+        bad = []
+        if int(d["mode"], 16) != mode:
+            bad.append("bound mode reported %s, requested %x" % (d["mode"], mode))
+        if mode in (11, 13) and d["lossless"] == "0" and not me <= lim * (1 + 2.0 ** -20):
+            bad.append("maximum error %g exceeds the absolute bound %g of the AND mode" % (me, lim))
+        if mode in (12, 14) and d["lossless"] == "0" and not me <= max(lim, 1e-2 * dbl(d["amax"])) * (1 + 2.0 ** -20):
+            bad.append("maximum error %g exceeds both the absolute bound %g and ratio x largest magnitude of the OR mode" % (me, lim))
+        return [("combined_pwrel_modes", b) for b in bad]
     if ty < 2 and n <= 20:
         return [("meta_tiny_bypass_no_header", "arrays of at most 20 float/double elements are stored without any header: the metadata query reads data bytes")]
     # a wrapped stream of a bypass size is not unwrapped by the library itself (C12's class); the harness does unwrap it
@@ -189,6 +212,8 @@ def run(chk):
                 n *= v
         if int(a[1], 16) < 2 and n <= 20:
             continue
+        if int(a[3], 16) >= 11:
+            continue            # the model's header walk covers the modes the properties' kernels implement
         d, md = kv(io[i]), kv(m)
         if any(d.get(k) != md.get(k) for k in ("const", "lossless", "st", "len", "ty", "mode", "b6", "b10", "szmode")) or md.get("reenc") != "1":
             nbad += 1
